@@ -10,6 +10,7 @@ import itertools
 
 import numpy as np
 
+from vlib.grids import scribble
 from vlib.core import Result, pmap, merge_results, run_hypothesis, quiet, digest
 
 NAN = float("nan")
@@ -57,8 +58,14 @@ def judge(case):
                 if other.shape != want_other.shape or not np.allclose(other, want_other, atol=1e-12, rtol=0):
                     return [f"entry-wise mismatch in the {'non-overlapping' if not noncorr else 'sliding'} mode (first query on the object)"]
                 model.get_one_tau_transition_matrix(tau + 1, noncorrelated_windows=noncorr)
-            got = model.get_one_tau_transition_matrix(tau_arg, noncorrelated_windows=noncorr)
-        got = np.asarray(got.todense(), dtype=float)
+            handed = model.get_one_tau_transition_matrix(tau_arg, noncorrelated_windows=noncorr)
+            got = np.array(handed.todense(), dtype=float)
+            if case.get("other_mode_first"):
+                # the matrix handed out belongs to the caller: scaling it in place must not change a later answer
+                scribble(handed)
+                later = np.array(model.get_one_tau_transition_matrix(tau_arg, noncorrelated_windows=noncorr).todense(), dtype=float)
+                if later.shape != got.shape or not np.array_equal(later, got):
+                    return ["the same MSM object answers differently after the caller edited the matrix it was handed in place"]
     except Exception as e:
         return [f"exception {type(e).__name__}: {e}"]
     original = np.array([NAN if (x is None or x == "nan") else float(x) for x in case["traj"]], dtype=float)
